@@ -184,7 +184,8 @@ def run(tier, seed, replay):
                 out.violation("quote-roundtrip:%s" % b.hex()[:16], "strconv.Unquote(fmt.Sprintf(\"%%+q\", s)) != s for bytes %s" % b.hex(), {"bytes": b.hex()})
     # ---- run-time half: GetParam on the real generated container (type and value, single vs multi chunk, env/envInt/todo, failing function)
     from . import rtcommon
-    shapes = ["%%", "a%%b", "%lit%", "x%lit%y", "%n%", "%n%%n%", "%b%", " %b%", "%nil%", "%nil%!", "%f%", "%u%", "%s%", "%s%%s%", "%%%s%%%", "%env(\"GV_SET\")%", "%env(\"GV_NOPE\")%",
+    shapes = ["say \"%lit%\"", "{\"r\": \"%n%%%\"}", "\"%lit%", "%lit%\"", "'%n%", "`%lit%`%%", "(%n%", "a \" b \" c \" %lit% %%",
+              "%%", "a%%b", "%lit%", "x%lit%y", "%n%", "%n%%n%", "%b%", " %b%", "%nil%", "%nil%!", "%f%", "%u%", "%s%", "%s%%s%", "%%%s%%%", "%env(\"GV_SET\")%", "%env(\"GV_NOPE\")%",
               "%env(\"GV_NOPE\", \"d\")%", "%envInt(\"GV_INT\")%", "%envInt(\"GV_INT\")%0", "%envInt(\"GV_BAD\")%", "%envInt(\"GV_NOPE\", 7)%", "%env(\"GV_EMPTY\")%", "%env(\"GV_EMPTY\", \"dflt\")%", "%envInt(\"GV_EMPTY\", 7)%", "%envInt(\"GV_EMPTY\")%", "x%env(\"GV_EMPTY\", \"dflt\")%y", "%envInt(\"GV_BAD\", 7)%", "%envInt(\"GV_Z\")%", "v=%envInt(\"GV_Z\")%", "%envInt(\"GV_NEG0\")%", "%envInt(\"GV_PLUS\")%", "%envInt(\"GV_BIG\")%", "%envInt(\"GV_MIN\")%", "%env(\"GV_Z\")%", "%todo()%", "%todo(\"msg\")%",
               "@x", "@", "!value 1", "!value al.X", "!tagged t", "$gontainer", "@x%%", "!value %n%", "@%lit%",
               "%fn(\"x\", 3)%", "%fn(\"x,y\", 3)%", "%fn(\"a ,b\",4)%", "%fn(\"a,,b\")%", "%fn(\"fail\")%", "pre %fn(\"fail\")% post", "é%s%✓", "%lit% %n% %b% %nil% %f% %u%", "100%%", "%%%%", "%env(\"GV_SET\")%/%env(\"GV_SET\")%"]
